@@ -27,6 +27,16 @@ CHECKS['C03'] = dict(
           'run on the implementation only.'),
     design='7 (C03)')
 
+CHECKS['C04'] = dict(
+    technique='Lean 4 model of grammar preparation with theorems (every literal skips, skip rule = Skip over the ignored rules, leading skip only at the start rule, skip maximal) + C01 refinement + correspondence of the preparation model with the real translator + metamorphic lengthening run',
+    text=('Proof: C04_every_literal_skips, C04_ignored_rule, C04_leading_skip, C04_no_other_skip_point about the Lean model `prepare` of the translator front half; '
+          'C04_literal_then_skip and C04_skip_maximal about the specification; the emitted code is covered by C01_codegen_refines_peg. '
+          'Tie: for every generated grammar the prepared expression objects of the real translator are compared structurally with `prepare` of the same grammar, and real parse '
+          'results with peg(prepare(grammar)) on all short inputs containing ignorable text in every position. PARTIAL: the lengthening clause is a visible unproved def '
+          '(C04_lengthening_statement) and is exercised on the implementation only (every ignorable run doubled).'),
+    note='Trusted as for C01; start rule = rule named start (any capitalisation).',
+    design='7 (C04)')
+
 NOT_YET = {
 }
 
